@@ -1651,7 +1651,7 @@ def _make_hash_script(
         )
 
         for a in attrs:
-            if a.eq_key:
+            if a.eq_key is not None:
                 cmp_name = f"__attr_key_{a.name}"
                 globs[cmp_name] = a.eq_key
                 method_lines.append(
@@ -1723,7 +1723,7 @@ def _make_eq_script(attrs: list) -> tuple[str, dict]:
     if attrs:
         lines.append("    return  (")
         for a in attrs:
-            if a.eq_key:
+            if a.eq_key is not None:
                 cmp_name = f"__attr_key_{a.name}"
                 # Add the key function to the global namespace
                 # of the evaluated function.
@@ -1755,7 +1755,7 @@ def _make_order(cls, attrs):
         Save us some typing.
         """
         return tuple(
-            key(value) if key else value
+            key(value) if key is not None else value
             for value, key in (
                 (getattr(obj, a.name), a.order_key) for a in attrs
             )
@@ -2508,7 +2508,10 @@ class Attribute:
         alias=None,
     ):
         eq, eq_key, order, order_key = _determine_attrib_eq_order(
-            cmp, eq_key or eq, order_key or order, True
+            cmp,
+            eq_key if eq_key is not None else eq,
+            order_key if order_key is not None else order,
+            True,
         )
 
         # Cache this descriptor here to speed things up later.
